@@ -708,6 +708,17 @@ def fixed_scenarios(prop):
         out.append(gen_edit_scenario(_r.Random(1), "fixed-edit-every-line-a", slots=[0, 1, 2, 3]))
         out.append(gen_edit_scenario(_r.Random(2), "fixed-edit-every-line-b", slots=[4, 5, 6, 7]))
         out += fixed_indent_scenarios()
+        # fixed finding F45: location 1 holds f(0) computed by the OLD text; in the next session the edited function is
+        # first called at the empty location 0 (which registers it in _FUNCTION_HASHES), then at location 1
+        V = {"1": {"tag": "v1", "path": "verifmod.py", "pad": 0, "kind": "def", "text": 1},
+             "2": {"tag": "v2", "path": "verifmod.py", "pad": 0, "kind": "def", "text": 2}}
+
+        def cl(k, L, a=0):
+            return ["call", k, {"pos": [I(a)], "kw": []}, True, L]
+        out.append({"id": "fixed-two-locations-F45", "type": "c12", "locs": 2, "params": [["x", "pk", None]],
+                    "ignore": [], "compress": False, "versions": V, "mode": "same",
+                    "events": [["define", 1], ["wrap", 1, 1], cl(1, 1), ["newprocess"], ["define", 2], ["wrap", 2, 0],
+                               ["wrap", 2, 1], cl(2, 0), cl(2, 1), cl(2, 0), cl(2, 1), cl(2, 1, 1)]})
         # same-named callables: A, B, A with an equal argument, also across a fresh process
         ev = []
         for k in (1, 2, 3, 4, 5):
@@ -792,6 +803,104 @@ def gen_names_scenario(rng, sid, members=None):
 def mtext(sc, v):
     """text identity of a version as the MODEL sees it (one text for the same-named-callables stream)"""
     return 0 if sc.get("multi_id") else v.get("text", 0)
+
+
+def gen_loc_scenario(rng, sid):
+    """C12 histories over 2-3 CACHE LOCATIONS shared by the processes of the history: every Wrap / Call / Check /
+    clear names a location.  Generated admissible AT EVERY LOCATION (no stale source file; at one location an
+    object is not used again after an object of other text was used there), so every wrong value or needless
+    recomputation is a violation.  The interesting interplay is the process-wide _FUNCTION_HASHES: a function
+    validated at one location must not be trusted at another (fixed finding F45)."""
+    nloc = rng.choice([2, 2, 3])
+    ntext = rng.choice([2, 2, 3])
+    kind = rng.choice(["def", "def", "nested", "lambda"])
+    mode = rng.choice(["same", "own"])
+    versions = {}
+
+    def new_version(text):
+        k = max([int(x) for x in versions] + [0]) + 1
+        versions[str(k)] = {"tag": "v%d" % text, "path": "verifmod.py" if mode == "same" else "mod_v%d.py" % text,
+                            "pad": 0, "kind": kind, "text": text}
+        return k
+    sc = {"id": sid, "type": "c12", "locs": nloc, "params": [["x", "pk", None]], "ignore": [], "compress": False,
+          "versions": versions, "mode": mode}
+    events = []
+    live, stale = set(), set()
+    wrapped = {}                                   # k -> set of locations
+    called = {L: set() for L in range(nloc)}       # objects used at L in this process
+    cur = {L: None for L in range(nloc)}           # text of the last use at L
+    lineage = {}
+
+    def reset_process():
+        live.clear(), stale.clear(), wrapped.clear()
+        for L in range(nloc):
+            called[L], cur[L] = set(), None
+    guard = 0
+    while len([e for e in events if e[0] == "call"]) < rng.randint(5, 14) and guard < 300:
+        guard += 1
+        r = rng.random()
+        usable = [(k, L) for k in sorted(live) if k not in stale for L in sorted(wrapped.get(k, ()))
+                  if unnamed(versions[str(k)]) or k not in called[L] or cur[L] == versions[str(k)]["text"]]
+        if not live or r < 0.16:
+            k = new_version(rng.randint(1, ntext))
+            events.append(["define", k])
+            for j in list(live):
+                if versions[str(j)]["path"] == versions[str(k)]["path"] and versions[str(j)]["text"] != versions[str(k)]["text"]:
+                    stale.add(j)
+            live.add(k)
+            for L in rng.sample(range(nloc), rng.randint(1, nloc)):
+                events.append(["wrap", k, L])
+                wrapped.setdefault(k, set()).add(L)
+        elif r < 0.24:
+            events.append(["newprocess"])
+            reset_process()
+        elif r < 0.28 and live:
+            k = rng.choice(sorted(live))
+            L = rng.randrange(nloc)
+            events.append(["wrap", k, L])
+            wrapped.setdefault(k, set()).add(L)
+        elif r < 0.31:
+            L = rng.randrange(nloc)
+            events.append(["clearmem", L])
+            for L2 in range(nloc):
+                called[L2] = set()
+        elif r < 0.38 and kind != "lambda":
+            cand = [k for k in sorted(live) if k not in stale and wrapped.get(k)]
+            texts = list(range(1, ntext + 1))
+            cand = [k for k in cand if any(t != versions[str(k)]["text"] and t not in lineage.get(k, set()) for t in texts)]
+            if cand:
+                k = rng.choice(cand)
+                t2 = rng.choice([t for t in texts if t != versions[str(k)]["text"] and t not in lineage.get(k, set())])
+                k2 = max(int(x) for x in versions) + 1
+                versions[str(k2)] = dict(versions[str(k)], tag="v%d" % t2, text=t2)
+                locs = sorted(wrapped[k])
+                events.append(["hotreload", k, k2, locs])
+                lineage[k2] = lineage.get(k, set()) | {versions[str(k)]["text"]}
+                live.discard(k)
+                for j in list(live):
+                    if versions[str(j)]["path"] == versions[str(k2)]["path"] and versions[str(j)]["text"] != t2:
+                        stale.add(j)
+                live.add(k2)
+                wrapped[k2] = set(locs)
+        elif r < 0.42 and usable:
+            k, L = rng.choice(usable)
+            events.append(["clearfunc", k, L])
+            called[L].add(k)
+            cur[L] = versions[str(k)]["text"]
+        elif usable:
+            k, L = rng.choice(usable)
+            cs = {"pos": [I(rng.choice([0, 0, 1]))], "kw": []}
+            vld = rng.random() > 0.1
+            if rng.random() < 0.35:
+                events.append(["check", k, cs, vld, L])
+            events.append(["call", k, cs, vld, L])
+            called[L].add(k)
+            cur[L] = versions[str(k)]["text"]
+        elif live:
+            events.append(["newprocess"])
+            reset_process()
+    sc["events"] = events
+    return sc
 
 
 def gen_c12_scenario(rng, sid):
@@ -885,12 +994,13 @@ def gen_c12_scenario(rng, sid):
                     continue
             k = rng.choice(cand)
             cs = {"pos": [{"i": rng.choice([0, 0, 1, 2])}], "kw": []}
+            vld = rng.random() > 0.1      # the validation callback sometimes rejects the entry
             if rng.random() < 0.3:
-                events.append(["check", k, cs, True])
+                events.append(["check", k, cs, vld])
             if rng.random() < 0.12:
                 nref = sum(1 for e in events if e[0] == "shelve")
                 events += [["shelve", k, cs, True], ["get", nref]]
-            events.append(["call", k, cs, True])
+            events.append(["call", k, cs, vld])
             called_text = versions[str(k)]["text"]
     sc["events"] = events
     return sc
@@ -1128,8 +1238,8 @@ def judge(sc, res):
         return None
 
     def version_key(i):
-        if adm or adm_at > i or sc["type"] == "partial":
-            return None
+        if adm or adm_at > i or sc["type"] == "partial" or sc.get("locs"):
+            return None      # (multi-location histories are generated admissible at every location)
         return K_F10 if adm_clause == "other-version" else K_SAMEFILE
 
     seen_keys = {}      # event -> (restricted binding, args_id) of the calls so far
@@ -1151,15 +1261,21 @@ def judge(sc, res):
             text = V[str(k)].get("text", 0)
             if r.get("bind") is None:
                 continue  # Python rejects the call: outside the properties
-            ck = (text, r["bind_r"])
+            L = ev[4] if len(ev) > 4 else 0
+            ck = (text, "%d|%s" % (L, r["bind_r"]) if sc.get("locs") else r["bind_r"])
+
+            def elsewhere(c):      # an entry of another cache location is not touched by what happens here
+                return bool(sc.get("locs")) and not c[1].startswith("%d|" % L)
             if r["o"] == "raise":
                 devs.append({"prop": "C06", "kind": "rejected", "event": i, "key": fa_key([i]),
                              "what": "valid call rejected by the wrapper with %s" % r.get("e")})
                 pending_check = None
                 continue
             if t == "check":
-                pending_check = (i, ev[1], json.dumps(ev[2], sort_keys=True), vld, r["b"])
-                for other in [c for c in completed if c[0] != text]:
+                pending_check = (i, (ev[1], L), json.dumps(ev[2], sort_keys=True), vld, r["b"])
+                if not vld:
+                    completed.pop(ck, None)     # an invalidating check deletes the entry (that is an invalidation)
+                for other in [c for c in completed if c[0] != text and not elsewhere(c)]:
                     del completed[other]      # the code check of another text wipes the store
                 continue
             # the interface hypotheses, validated on every generated call of a plain function / bound method:
@@ -1182,7 +1298,7 @@ def judge(sc, res):
                 seen_keys[i] = (r["bind_r"], r.get("args_id"))
             executed = r["n"] > 0
             # C06_check: the preceding identical check predicted this call
-            if pending_check and pending_check[1:4] == (k, json.dumps(ev[2], sort_keys=True), vld):
+            if pending_check and pending_check[1:4] == ((k, L), json.dumps(ev[2], sort_keys=True), vld):
                 if pending_check[4] == executed:
                     devs.append({"prop": "C06", "kind": "check-mismatch", "event": i, "key": None,
                                  "what": "check_call_in_cache said %s but the next identical call %s the function"
@@ -1221,7 +1337,7 @@ def judge(sc, res):
                              "what": "call equivalent to the completed call at event %d executed the function again"
                                      % j})
             # a call of another text wipes what other texts stored (that is the point of C12)
-            for other in [c for c in completed if c[0] != text]:
+            for other in [c for c in completed if c[0] != text and not elsewhere(c)]:
                 del completed[other]
             completed[ck] = i
             by_args_id.setdefault(r.get("args_id"), set()).add(ck)
@@ -1241,7 +1357,12 @@ def judge(sc, res):
                                  "what": ".get() of the reference shelved at event %d returned %s, expected %s"
                                          % (j, r["v"], expect)})
         elif t in ("clearfunc", "clearmem", "clearfunc2"):
-            completed.clear()
+            if sc.get("locs"):
+                Lc = (ev[2] if len(ev) > 2 else 0) if t == "clearfunc" else (ev[1] if len(ev) > 1 else 0)
+                for c in [c for c in completed if c[1].startswith("%d|" % Lc)]:
+                    del completed[c]
+            else:
+                completed.clear()
         elif t == "clearref":
             if ev[1] in ref_info:
                 aid = ref_info[ev[1]][4]
@@ -1259,7 +1380,7 @@ def judge(sc, res):
 
 # ------------------------------------------------------------------------------- model
 REQ = """From Coq Require Import List Bool Arith.
-Require Import JV.Base.PyPrelude JV.Model.MemoryCore JV.Model.MemoryTab.
+Require Import JV.Base.PyPrelude JV.Model.MemoryCore JV.Model.MemoryTab JV.Model.MemoryLoc.
 Import ListNotations."""
 DEFS = """Definition show (o : outcome tvalue) : nat * (nat * nat) :=
   match o with
@@ -1335,6 +1456,30 @@ def model_terms(sc, res):
             hist.append("NewProcess")
     cfg = "(tab_cfg %s %s %s)" % (common.coq_list(map(str, codes)), common.coq_list(map(str, paths)),
                                    common.coq_list(nameds))
+    if sc.get("locs"):
+        # one M4 state per cache location in lock step (Model/MemoryLoc.v)
+        mh = []
+        hi = iter(hist)
+        for ev in sc["events"]:
+            t = ev[0]
+            if t == "hotreload":
+                next(hi)
+                mh.append("Everywhere (Define %d)" % ev[2])
+                mh += ["At %d (Wrap %d)" % (L, ev[2]) for L in ev[3]]
+            elif t in ("define", "newprocess"):
+                mh.append("Everywhere (%s)" % next(hi))
+            elif t == "wrap":
+                mh.append("At %d (%s)" % (ev[2] if len(ev) > 2 else 0, next(hi)))
+            elif t in ("call", "check", "shelve"):
+                mh.append("At %d (%s)" % (ev[4] if len(ev) > 4 else 0, next(hi)))
+            elif t == "clearfunc":
+                mh.append("At %d (%s)" % (ev[2] if len(ev) > 2 else 0, next(hi)))
+            elif t == "clearmem":
+                mh.append("At %d (%s)" % (ev[1] if len(ev) > 1 else 0, next(hi)))
+            else:
+                return None
+        return cfg, "(%s : list (mevent (call:=tcall) (digest:=nat)))" % common.coq_list(mh), \
+            {"rbindc": rbindc, "locs": sc["locs"]}
     return cfg, "(%s : list tevent)" % common.coq_list(hist), {"rbindc": rbindc}
 
 
@@ -1352,7 +1497,7 @@ def impl_view(sc, res, tables):
     for ev, r in zip(sc["events"], res["events"]):
         t = ev[0]
         if t == "hotreload":
-            out += [(1, 0, 0), (1, 0, 0)]
+            out += [(1, 0, 0)] * ((1 + len(ev[3])) if sc.get("locs") else 2)
         elif r.get("o") == "skip":
             out.append((0, 0, 0))
         elif t in ("define", "wrap", "recode", "clearref", "clearfunc", "clearfunc2", "clearmem", "evict", "rmentry",
@@ -1388,7 +1533,11 @@ def model_compare(ctx, scs, ress, name):
         if mt is None:
             continue
         cfg, hist, tables = mt
-        exprs.append("(map show (outcomes %s %s), admissible %s %s)" % (cfg, hist, cfg, hist))
+        if tables.get("locs"):
+            exprs.append("(map show (moutcomes %s %d %s), madmissible %s %d %s)" % (cfg, tables["locs"], hist, cfg,
+                                                                                   tables["locs"], hist))
+        else:
+            exprs.append("(map show (outcomes %s %s), admissible %s %s)" % (cfg, hist, cfg, hist))
         index.append((n, tables))
     vals = ctx.coq_eval_lines(REQ, DEFS, exprs, name=name, shard=40)
     disagreements, adm_mismatch = [], []
@@ -1413,7 +1562,11 @@ def model_compare(ctx, scs, ress, name):
                                       "scenario": sc})
                 break
         sc["_raises"] = {i: True for i, r in enumerate(res["events"]) if r.get("args_id", 1) is None}
-        if monitor(sc)[0] != adm_coq:
+        if sc.get("locs"):
+            if not adm_coq:
+                adm_mismatch.append({"scenario": sc, "python_monitor": "generated admissible at every location",
+                                     "coq_admissible": adm_coq})
+        elif monitor(sc)[0] != adm_coq:
             adm_mismatch.append({"scenario": sc, "python_monitor": monitor(sc), "coq_admissible": adm_coq})
     return disagreements, len(vals), adm_mismatch
 
@@ -1547,7 +1700,8 @@ def gen_for(ctx, prop, n=None):
         return ([W_F10, W_SAME] + fixed_scenarios(prop) + [gen_c12_scenario(rng, i) for i in range(n)]
                 + [gen_edit_scenario(rng, "edit-%d" % i) for i in range(35 if quick else 600)]
                 + [gen_indent_scenario(rng, "indent-%d" % i) for i in range(30 if quick else 400)]
-                + [gen_names_scenario(rng, "names-%d" % i) for i in range(30 if quick else 400)])
+                + [gen_names_scenario(rng, "names-%d" % i) for i in range(30 if quick else 400)]
+                + [gen_loc_scenario(rng, "loc-%d" % i) for i in range(50 if quick else 600)])
     sigs3 = enum_signatures(3)
     sigs = enum_signatures(4 if quick else 5)
     n = n or (230 if quick else 3000)
